@@ -94,7 +94,7 @@ theorem rootSearch_ok {two : Bool} {Dom : S → Prop} (hk : DfpnOK G hash threat
     (hlatch : d.attacker = .none → G.toMove g = att) {st : St M} {e : Entry M} {w : UInt64}
     (hrun : rootSearch G hash threats scale fuel d g = .ok (st, e, w)) :
     TableOK G hash att two Dom st ∧ (d.st.ghostRep = true → st.ghostRep = true) ∧
-      EOK G att (cleanOf two st) g e.bounds := by
+      EOK G att (cleanOf two st) g e.bounds ∧ PvGood G att g e := by
   have hatt : att ≠ .none := by rcases hk.attWB with h | h <;> rw [h] <;> decide
   have heff := effAttacker_eq hd hatt hlatch
   unfold rootSearch at hrun
@@ -105,10 +105,10 @@ theorem rootSearch_ok {two : Bool} {Dom : S → Prop} (hk : DfpnOK G hash threat
   · rename_i r hor
     simp only [Except.ok.injEq, Prod.mk.injEq] at hrun
     obtain ⟨rfl, rfl, _⟩ := hrun
-    exact ⟨ht0, fun h => h, terminal_eok hk.alt hk.attWB _ hor⟩
+    exact ⟨ht0, fun h => h, terminal_eok hk.alt hk.attWB _ hor, fun _ _ m hm => by cases hm⟩
   · rename_i hor
-    have post := (mid_loop_ok scale hk fuel).1 _ [] g _ _ st e w hg hor ht0 rfl (root_eok _ g) (by decide) hrun
-    exact ⟨post.table, post.ghost, post.eok⟩
+    obtain ⟨post, hpv⟩ := (mid_loop_ok scale hk fuel).1 _ [] g _ _ st e w hg hor ht0 rfl (root_eok _ g) (by decide) hrun
+    exact ⟨post.table, post.ghost, post.eok, hpv rfl⟩
 
 /-- **one call of `Prove`**: the solver stays sound with its attacker now fixed to `att`, the ghost flag
 only rises, `proven` is a forced win and — with the flag down after the call — `disproven` excludes one. -/
@@ -119,6 +119,8 @@ theorem proveWith_ok {two : Bool} {Dom : S → Prop} (hk : DfpnOK G hash threats
     SolverOK G hash att two Dom d' ∧ d'.attacker = att ∧
     (d.st.ghostRep = true → d'.st.ghostRep = true) ∧
     (r.result = .proven → PlainWin G att g) ∧
+    (r.result = .proven → G.toMove g = att → ∀ m, r.move = some m →
+      m ∈ G.moves g ∧ ∃ s', G.apply g m = some s' ∧ PlainWin G att s') ∧
     (two = true → d'.st.ghostRep = false → r.result = .disproven → ¬ PlainWin G att g) := by
   have hatt : att ≠ .none := by rcases hk.attWB with h | h <;> rw [h] <;> decide
   have heff := effAttacker_eq hd hatt hlatch
@@ -126,11 +128,11 @@ theorem proveWith_ok {two : Bool} {Dom : S → Prop} (hk : DfpnOK G hash threats
   split at hrun
   · cases hrun
   · rename_i st e w hroot
-    obtain ⟨ht, hgh, ⟨_, h1, h2, h3, h4⟩⟩ := rootSearch_ok scale hk fuel hd hg hlatch hroot
+    obtain ⟨ht, hgh, ⟨_, h1, h2, h3, h4⟩, hpv⟩ := rootSearch_ok scale hk fuel hd hg hlatch hroot
     rw [heff] at hrun
     simp only [Except.ok.injEq, Prod.mk.injEq] at hrun
     obtain ⟨rfl, _, rfl⟩ := hrun
-    refine ⟨⟨Or.inl rfl, ht⟩, rfl, hgh, ?_, ?_⟩
+    refine ⟨⟨Or.inl rfl, ht⟩, rfl, hgh, ?_, ?_, ?_⟩
     · by_cases htm : G.toMove g = att
       · have : (att != G.toMove g) = false := by simp [htm]
         simp only [this, Bool.false_eq_true, if_false]
@@ -140,6 +142,10 @@ theorem proveWith_ok {two : Bool} {Dom : S → Prop} (hk : DfpnOK G hash threats
         simp only [this, if_true]
         intro hres
         exact h2 htm (verdict_proven _ _ hres)
+    · intro hres htm
+      have : (att != G.toMove g) = false := by simp [htm]
+      simp only [this, Bool.false_eq_true, if_false] at hres
+      exact hpv htm (verdict_proven _ _ hres)
     · intro htwo hclean
       have hclean' : st.ghostRep = false := hclean
       have hcl : cleanOf two st = true := by simp [cleanOf, htwo, hclean']
